@@ -375,16 +375,23 @@ impl BytecodeInterpreter {
                 let else_jump_offset = self.vm.current_offset() + 1;
                 self.vm.add_op1(Op::Jump, 0xffff, *span);
 
+                // Note that the absolute offsets can be larger than u16::MAX (the bytecode of
+                // the global scope keeps growing in a REPL session). Only the relative jump
+                // distances need to fit into 16 bit.
                 let else_block_offset = self.vm.current_offset();
+                let if_jump_distance = else_block_offset - (if_jump_offset + 2);
+                assert!(if_jump_distance <= u16::MAX as usize);
                 self.vm
-                    .patch_u16_value_at(if_jump_offset, else_block_offset - (if_jump_offset + 2));
+                    .patch_u16_value_at(if_jump_offset, if_jump_distance as u16);
 
                 self.compile_expression(else_expr);
 
                 let end_offset = self.vm.current_offset();
+                let else_jump_distance = end_offset - (else_jump_offset + 2);
+                assert!(else_jump_distance <= u16::MAX as usize);
 
                 self.vm
-                    .patch_u16_value_at(else_jump_offset, end_offset - (else_jump_offset + 2));
+                    .patch_u16_value_at(else_jump_offset, else_jump_distance as u16);
             }
             Expression::List { span, elements, .. } => {
                 for element in elements {
